@@ -7,6 +7,7 @@
 package clsim
 
 import (
+	"runtime"
 	"fmt"
 	"net"
 	"strings"
@@ -146,6 +147,53 @@ type Sim struct {
 
 	activity chan struct{} // signalled whenever the client writes a datagram
 	ccfg     *client.ClientConfig
+
+	// respMu serialises collect + Respond: with an eager gateway (SetEager) they also run on the
+	// client's writing goroutines
+	respMu sync.Mutex
+}
+
+// SetEager makes the scripted gateway answer the moment the client writes a datagram - from the
+// link's write hook, while the writing goroutine is still inside the write (it then yields that
+// many times: a write is a system call) - instead of when the client has come to rest: a gateway
+// on a fast link. yield < 0: back to normal.
+func (s *Sim) SetEager(yield int) {
+	signal := func([]byte) {
+		select {
+		case s.activity <- struct{}{}:
+		default:
+		}
+	}
+	if yield < 0 {
+		s.Link.OnWrite = signal
+		return
+	}
+	s.Link.OnWrite = func(b []byte) {
+		signal(b)
+		s.respMu.Lock()
+		s.respondTo(s.collect())
+		s.respMu.Unlock()
+		for i := 0; i < yield; i++ {
+			runtime.Gosched()
+		}
+	}
+}
+
+// respondTo lets the responder answer the given client datagrams (respMu held).
+func (s *Sim) respondTo(evs []Event) (sent bool) {
+	if s.Respond == nil {
+		return false
+	}
+	for _, e := range evs {
+		if e.SN == nil {
+			continue
+		}
+		for _, rp := range s.Respond(*e.SN) {
+			s.GatewaySend(rp, true)
+			sent = true
+		}
+	}
+	return
 }
 
 func (s *Sim) Now() int64 { return int64(time.Since(s.start)) }
@@ -287,19 +335,9 @@ func (s *Sim) collect() []Event {
 func (s *Sim) Settle() {
 	for i := 0; i < 500; i++ {
 		synctest.Wait()
-		evs := s.collect()
-		sent := false
-		if s.Respond != nil {
-			for _, e := range evs {
-				if e.SN == nil {
-					continue
-				}
-				for _, rp := range s.Respond(*e.SN) {
-					s.GatewaySend(rp, true)
-					sent = true
-				}
-			}
-		}
+		s.respMu.Lock()
+		sent := s.respondTo(s.collect())
+		s.respMu.Unlock()
 		if !sent {
 			return
 		}
